@@ -109,8 +109,8 @@ fn main() {
     let mut sum = Summary::default();
     sum.nontrivial_rule = "a case is one history (committed prefix, BEGIN, body, ROLLBACK|COMMIT, epilogue) with every statement's result and four full observations; distinct = distinct statement text of the whole history; non-trivial = the body contains at least one statement that succeeded and changed rows, indexes or the savepoint stack".into();
     let mut log = CaseLog::new(&args);
-    let n_hist: u64 = if args.thorough { 12000 } else { 640 };
-    let nshards = 16usize;
+    let n_hist: u64 = if args.thorough { 8000 } else { 480 };
+    let nshards = std::cmp::max(16, (n_hist / 40) as usize);
     let mut shard_txt: Vec<Vec<String>> = vec![Vec::new(); nshards];
     for id in 0..n_hist {
         if let Some(only) = &args.only {
@@ -139,6 +139,10 @@ fn main() {
         run_ops(&mut db, &plan.epilogue, &mut items);
         let snap_d = observe(&mut db);
         items.last_mut().unwrap().snap = Some(snap_d.clone());
+        // probe: no transaction may be left open (SAVEPOINT must be refused)
+        let open_after_end = db.in_transaction();
+        run_ops(&mut db, &[Op::Savepoint(9)], &mut items);
+        let probe_code = items.last().unwrap().code;
         sum.evaluations += 1;
 
         // ------------------------------------------------ the property's oracle, on the engine
@@ -158,6 +162,9 @@ fn main() {
         let mut check = |what: &str, want: &Snapshot, got: &Snapshot, extra_codes: Option<(Vec<i64>, Vec<i64>)>| {
             let mut classes: Vec<(String, String)> = Vec::new();
             let generic = if rollback { "rollback-mismatch" } else { "commit-mismatch" };
+            if want.listing != got.listing {
+                classes.push((generic.into(), format!("{}: list_tables differs: want {:?} got {:?}", what, want.listing, got.listing)));
+            }
             if want.table_bags() != got.table_bags() {
                 classes.push((generic.into(), format!("{}: table contents differ: want {:?} got {:?}", what, want.table_bags(), got.table_bags())));
             }
@@ -203,7 +210,11 @@ fn main() {
         };
         let mut found = check(if rollback { "after ROLLBACK" } else { "after COMMIT" }, reference, &snap_c, None);
         let codes = |v: &[Item]| v.iter().map(|i| i.code).collect::<Vec<_>>();
-        found.extend(check("after the epilogue", &ref_d, &snap_d, Some((codes(&ref_items), codes(&items[epi_start..])))));
+        found.extend(check("after the epilogue", &ref_d, &snap_d, Some((codes(&ref_items), codes(&items[epi_start..items.len() - 1])))));
+        if open_after_end || probe_code != -1 {
+            found.push(("transaction-left-open".into(), format!(
+                "after {} and the epilogue: in_transaction() = {}, SAVEPOINT S9 returned {}", plan.end.text(), open_after_end, probe_code)));
+        }
         found.sort();
         found.dedup_by(|a, b| a.0 == b.0);
         for (cls, what) in found {
